@@ -596,14 +596,14 @@ def x_binop(self, st, op, a, b, node):
     if isinstance(op, (ast.Sub, ast.BitOr, ast.BitAnd)) and isinstance(a, Ref) and isinstance(b, Ref):
         oa, ob = st.obj(a), st.obj(b)
         if oa.kind == "set" and ob.kind == "set" and oa.items is not None and ob.items is not None:
-            kb = [vkey(x) for x in ob.items]
-            ka = [vkey(x) for x in oa.items]
+            def member(x, items_):
+                return any(_abscall._same_member(self, st, x, y) for y in items_)
             if isinstance(op, ast.Sub):
-                items = [x for x in oa.items if vkey(x) not in kb]
+                items = [x for x in oa.items if not member(x, ob.items)]
             elif isinstance(op, ast.BitAnd):
-                items = [x for x in oa.items if vkey(x) in kb]
+                items = [x for x in oa.items if member(x, ob.items)]
             else:
-                items = list(oa.items) + [x for x in ob.items if vkey(x) not in ka]
+                items = list(oa.items) + [x for x in ob.items if not member(x, oa.items)]
             return st.alloc(HObj("set", kind="set", items=items))
     if isinstance(op, ast.Mod) and isinstance(a, str):
         b = x_strify(self, st, b)
@@ -839,7 +839,7 @@ def x_in(self, st, a, b, node):
     if isinstance(b, Ref):
         o = st.obj(b)
         if o.kind == "set" and o.items is not None and isinstance(a, Ref):
-            return any(isinstance(x, Ref) and x.oid == a.oid for x in o.items)
+            return any(_abscall._same_member(self, st, a, x) for x in o.items)
         if o.kind in ("list", "set") and o.items is not None:
             b = tuple(o.items)
         elif o.kind == "dict" and o.items is not None:
